@@ -79,7 +79,7 @@ POOLS = {
     "NULL": dict(cls="null"),
     "SINGLE": dict(cls="single"),
 }
-BODIES = ("coci", "coci2", "inval", "delfairy", "detach", "softinv", "dispose", "dropdetached")
+BODIES = ("coci", "coci2", "inval", "delfairy", "detach", "softinv", "dispose", "dropdetached", "isoclose")
 
 
 class Harness:
@@ -159,6 +159,10 @@ class Harness:
         cls = ctx["cfg"]["cls"]
         if not c.open:
             ctx["viol"].append("checkout returned closed connection %r" % c)
+        if getattr(c, "dirty_iso", False):
+            # C24 under schedules: per-checkout connection characteristics (isolation level ...) are
+            # reset by the record's finalizers at check-in, which must happen before anyone else can get it
+            ctx["viol"].append("carry-over: connection %r handed out before the previous holder's characteristics were reset" % c)
         if cls not in ("static",):
             for other, oc in ctx["holders"].items():
                 if oc is c and other != tid:
@@ -221,6 +225,14 @@ class Harness:
                     self._unhold(ctx, tid)
                     f.dbapi_connection.detached = True
                     f.detach()
+                    f.close()
+                elif name == "isoclose":
+                    # what DefaultDialect._set_connection_characteristics does for isolation_level=...:
+                    # change the connection and register the reset as a check-in finalizer
+                    c = f.dbapi_connection
+                    c.dirty_iso = True
+                    f._connection_record.finalize_callback.append(lambda dbapi: setattr(dbapi, "dirty_iso", False))
+                    self._unhold(ctx, tid)
                     f.close()
                 elif name == "delfairy":
                     self._unhold(ctx, tid)
@@ -286,6 +298,9 @@ def configs(tier):
             for bp in pairs:
                 if cfg["cls"] in ("static", "single") and "dispose" in bp:
                     # their dispose() closes connections that other threads are using, as documented
+                    continue
+                if cfg["cls"] == "static" and "isoclose" in bp:
+                    # StaticPool shares its one connection between concurrent checkouts by design
                     continue
                 if cfg["cls"] == "static" and ("inval" in bp or "detach" in bp):
                     # invalidating / detaching the single shared StaticPool connection while another
